@@ -84,7 +84,10 @@ def numpy_loop(ctx, fi, bounded_expected: bool):
     for st in loop.body:
         if isinstance(st, ast.Assign) and isinstance(st.targets[0], ast.Subscript) and \
                 isinstance(st.targets[0].value, ast.Name):
-            k = _affine(st.targets[0].slice, v)
+            sl_ = st.targets[0].slice
+            if isinstance(sl_, ast.Tuple) and sl_.elts:      # buf[v + 1, cols]: the row index decides the capacity
+                sl_ = sl_.elts[0]
+            k = _affine(sl_, v)
             if k is not None:
                 writes.append((st.targets[0].value.id, k, loop.body.index(st), st))
     if len(writes) != 1:
@@ -101,7 +104,9 @@ def numpy_loop(ctx, fi, bounded_expected: bool):
         rows = ast.unparse(shp.elts[0] if isinstance(shp, ast.Tuple) else shp)
     pre_write = any(isinstance(st, ast.Assign) and isinstance(st.targets[0], ast.Subscript)
                     and isinstance(st.targets[0].value, ast.Name) and st.targets[0].value.id == buf
-                    and isinstance(st.targets[0].slice, ast.Constant) and st.targets[0].slice.value == 0
+                    and (lambda sl: isinstance(sl, ast.Constant) and sl.value == 0)(
+                        st.targets[0].slice.elts[0] if isinstance(st.targets[0].slice, ast.Tuple) and
+                        st.targets[0].slice.elts else st.targets[0].slice)
                     for st in node.body[:li])
     # statements after the loop
     post_inc = 0
@@ -165,76 +170,116 @@ def numpy_loop(ctx, fi, bounded_expected: bool):
 
 
 def pivot_pairing(ctx, fi, counter: str = "nchol"):
-    """Inside the loop body: Mapprox += L[v]*L[v]; delta = diag - Mapprox; nu = argmax(abs(delta));
-    delta_max = abs(delta[nu]); R = dot(L[:v+1, nu], L[:v+1, :]); L[v+1] = (M[nu] - R)/sqrt(delta_max)."""
+    """Def-use form of one iteration of the pivoted Cholesky loops (decided on the value graph of the loop body,
+    independent of variable names):
+        Mapprox' = Mapprox + L[v] * L[v];  delta = diag - Mapprox';  nu = argmax(|delta|)  over the whole diagonal;
+        L[v + 1] = (M[nu] - dot(L[:v+1, nu], L[:v+1, :])) / sqrt(|delta[nu]|)."""
     q = fi.qualname
-    loop = [n for n in fi.node.body if isinstance(n, ast.While)][0]
-    src = {}
-    for st in loop.body:
-        if isinstance(st, (ast.Assign, ast.AugAssign)):
-            t = st.targets[0] if isinstance(st, ast.Assign) else st.target
-            src[ast.unparse(t)] = st
-    v = counter
-    # squares the counted vector
-    sq = [st for st in loop.body if isinstance(st, ast.AugAssign) and isinstance(st.value, ast.BinOp)
-          and isinstance(st.value.op, ast.Mult)]
-    ok_sq = False
-    for st in sq:
-        l, r = ast.unparse(st.value.left), ast.unparse(st.value.right)
-        if l == r and l.endswith(f"[{v}]"):
-            ok_sq = True
-    ctx.ob("PAIR-4", f"{q}: the diagonal approximation adds the square of the vector being counted", ok_sq,
-           "Mapprox += L[v] * L[v]" if ok_sq else "the accumulated square is not L[v]*L[v]", fi, loop.lineno)
-    # pivot
-    piv = None
-    for st in loop.body:
-        if isinstance(st, ast.Assign) and isinstance(st.value, ast.Call) and isinstance(st.targets[0], ast.Name) and \
-                (dotted(st.value.func) or "").split(".")[-1] in ("argmax", "argmin", "nanargmax", "argsort"):
-            piv = st.targets[0].id
-            fn_ = (dotted(st.value.func) or "").split(".")[-1]
-            arg = ast.unparse(st.value.args[0]) if st.value.args else ""
-            ctx.ob("PAIR-4", f"{q}: the pivot maximises |residual diagonal|",
-                   fn_ == "argmax" and "abs" in arg and "delta" in arg, f"{piv} = {fn_}({arg})", fi, st.lineno)
-    if piv is None:
-        raise AnalysisError(f"{q}: pivot selection not found")
-    # residual value at the pivot
-    dm = [st for st in loop.body if isinstance(st, ast.Assign) and ast.unparse(st.targets[0]) == "delta_max"]
-    ok_dm = bool(dm) and ast.unparse(dm[0].value).replace(" ", "") in (f"np.abs(delta[{piv}])", f"abs(delta[{piv}])",
-                                                                          f"numpy.abs(delta[{piv}])")
-    ctx.ob("PAIR-4", f"{q}: the normalisation uses the residual at the chosen pivot", ok_dm,
-           ast.unparse(dm[0].value) if dm else "delta_max not updated", fi)
-    # R and the new vector
-    rst = [st for st in loop.body if isinstance(st, ast.Assign) and ast.unparse(st.targets[0]) == "R"]
-    ok_r, why_r = False, "R not found"
-    if rst:
-        call_ = rst[0].value
-        if isinstance(call_, ast.Call) and (dotted(call_.func) or "").endswith("dot") and len(call_.args) == 2:
-            a, b = call_.args
-            ua, ub = ast.unparse(a).replace(" ", ""), ast.unparse(b).replace(" ", "")
-            ok_r = ua.endswith(f"[:{v}+1,{piv}]") and ub.endswith(f"[:{v}+1,:]") and ua.split("[")[0] == ub.split("[")[0]
-            why_r = f"R = dot({ua}, {ub})"
-    ctx.ob("PAIR-4", f"{q}: the residual contracts all vectors computed so far with the pivot column", ok_r, why_r, fi)
-    wr = [st for st in loop.body if isinstance(st, ast.Assign) and isinstance(st.targets[0], ast.Subscript)
-          and ast.unparse(st.targets[0].slice).replace(" ", "") == f"{v}+1"]
-    ok_w, why_w = False, "new vector store not found"
-    if wr:
-        val = wr[0].value
-        if isinstance(val, ast.BinOp) and isinstance(val.op, ast.Div):
-            num = ast.unparse(val.left).replace(" ", "")
-            den = ast.unparse(val.right).replace(" ", "")
-            deps = {}
-            for st in loop.body:
-                if isinstance(st, ast.Assign):
-                    tn = {n.id for t_ in st.targets for n in ast.walk(t_) if isinstance(n, ast.Name)}
-                    for t_ in tn:
-                        deps.setdefault(t_, set()).update(_names(st.value))
-            reach = set(_names(val.left)) - {"R"}
-            for _ in range(8):
-                reach |= {d for r_ in list(reach) for d in deps.get(r_, ())}
-            ok_w = num.endswith("-R") and (f"[{piv}]" in num or piv in reach) and "delta_max" in den and \
-                den.endswith("**0.5")
-            why_w = f"L[v+1] = ({num}) / {den}"
-    ctx.ob("PAIR-4", f"{q}: new vector = (M[pivot] - R) / sqrt(residual at the pivot)", ok_w, why_w, fi)
+    ev = Evaluator(ctx.p)
+    ev.eval_function(fi)
+    cand = []
+    for e in ev.events:
+        if e.kind != "store" or not e.data[1]:
+            continue
+        k = e.data[1][0]
+        if k.op == "tuple" and k.args:
+            k = k.args[0]
+        m = m_binop(k, "+")
+        if m is not None and is_const(m[1], 1) and m[0].op == "havoc":
+            cand.append((e, m[0]))
+    if len(cand) != 1:
+        raise AnalysisError(f"{q}: store of the next Cholesky vector (row counter + 1) not found ({len(cand)})")
+    e, v = cand[0]
+    val = strip_wrappers(e.data[2])
+    line = e.line
+    d = m_binop(val, "/")
+    if d is None:
+        ctx.ob("PAIR-4", f"{q}: new vector = (M[pivot] - R) / sqrt(residual at the pivot)", False,
+               f"stored value is not a quotient: {show(val, maxdepth=2)[:80]}", fi, line)
+        return
+    num, den = strip_wrappers(d[0]), strip_wrappers(d[1])
+    base = None
+    pw = m_binop(den, "**")
+    if pw is not None and pw[1].op == "const" and pw[1].args[0] == 0.5:
+        base = strip_wrappers(pw[0])
+    elif m_arrcall(den, "sqrt") is not None:
+        base = strip_wrappers(m_arrcall(den, "sqrt")[0])
+    ok_sqrt = base is not None
+    if base is not None:
+        ad = m_binop(base, "+")      # an additive regulariser (+ 1e-10) is allowed
+        if ad is not None and ad[1].op == "const":
+            base = strip_wrappers(ad[0])
+    ab = m_arrcall(base, "abs") if base is not None and base.op == "call" else None
+    if ab is None and base is not None and base.op == "call" and func_name(base) == "builtins.abs":
+        ab = call_parts(base)[1]
+    nu = dl = None
+    if ab is not None:
+        g = strip_wrappers(ab[0])
+        if g.op == "getitem":
+            dl, nu = strip_wrappers(g.args[0]), g.args[1]
+    ctx.ob("PAIR-4", f"{q}: the new vector is normalised by sqrt(|residual diagonal at the pivot|)",
+           ok_sqrt and nu is not None, f"denominator {show(den, maxdepth=3)[:80]}", fi, line)
+    if nu is None:
+        return
+    # the pivot maximises |residual| over the whole diagonal, and it is the residual that is normalised with
+    am = m_arrcall(strip_wrappers(nu), "argmax")
+    arg_abs = None
+    if am is not None:
+        a0 = strip_wrappers(am[0])
+        aa = m_arrcall(a0, "abs") if a0.op == "call" else None
+        if aa is None and a0.op == "call" and func_name(a0) == "builtins.abs":
+            aa = call_parts(a0)[1]
+        arg_abs = strip_wrappers(aa[0]) if aa is not None else None
+    ok_piv = am is not None and arg_abs is dl
+    ctx.ob("PAIR-4", f"{q}: the pivot maximises |residual diagonal| over all columns", ok_piv,
+           f"pivot = {show(strip_wrappers(nu), maxdepth=3)[:90]}" + ("" if ok_piv else
+           " (not argmax(abs(.)) of the residual the normalisation reads)"), fi, line)
+    # residual = diag - (Mapprox + L[v] * L[v])
+    ok_sq, why_sq = False, "residual is not diag - Mapprox"
+    r = m_binop(dl, "-")
+    if r is not None:
+        mp = m_binop(strip_wrappers(r[1]), "+")
+        if mp is not None:
+            for a_, b_ in ((mp[0], mp[1]), (mp[1], mp[0])):
+                pr = m_binop(strip_wrappers(b_), "*")
+                if pr is not None and strip_wrappers(a_).op == "havoc":
+                    x0, x1 = strip_wrappers(pr[0]), strip_wrappers(pr[1])
+                    ok_sq = x0 is x1 and x0.op == "getitem" and x0.args[1] is v and x0.args[0].op == "havoc"
+                    why_sq = f"Mapprox + {show(x0, maxdepth=1)[:30]} * {show(x1, maxdepth=1)[:30]}"
+    ctx.ob("PAIR-4", f"{q}: the diagonal approximation adds the square of the vector being counted", ok_sq, why_sq,
+           fi, line)
+    # numerator: M[pivot] - dot(L[:v+1, pivot], L[:v+1, :])
+    s_ = m_binop(num, "-")
+    ok_m = ok_r = False
+    why_r = "numerator is not M[pivot] - R"
+    if s_ is not None:
+        mrow, R = strip_wrappers(s_[0]), strip_wrappers(s_[1])
+        ok_m = any(y is nu for y in subterms(mrow))
+        ops = None
+        if R.op == "call" and (func_name(R) or "").split(".")[-1] in ("dot", "matmul") and len(call_parts(R)[1]) == 2:
+            ops = call_parts(R)[1]
+        elif m_binop(R, "@") is not None:
+            ops = list(m_binop(R, "@"))
+        if ops is not None:
+            a_, b_ = strip_wrappers(ops[0]), strip_wrappers(ops[1])
+
+            def rows_upto(t):
+                """L[:v+1, X] -> (L, X)"""
+                if t.op == "getitem" and t.args[1].op == "tuple" and len(t.args[1].args) == 2:
+                    sl, col = t.args[1].args
+                    if sl.op == "slice" and is_const(sl.args[0], None):
+                        up = m_binop(sl.args[1], "+")
+                        if up is not None and up[0] is v and is_const(up[1], 1):
+                            return t.args[0], col
+                return None
+
+            ra, rb = rows_upto(a_), rows_upto(b_)
+            ok_r = ra is not None and rb is not None and ra[0] is rb[0] and ra[0].op == "havoc" and ra[1] is nu
+            why_r = f"R = dot({show(a_, maxdepth=2)[:50]}, {show(b_, maxdepth=2)[:50]})"
+    ctx.ob("PAIR-4", f"{q}: the residual contracts all vectors computed so far with the pivot column", ok_r, why_r,
+           fi, line)
+    ctx.ob("PAIR-4", f"{q}: new vector = (M[pivot] - R) / sqrt(residual at the pivot)", ok_m and s_ is not None,
+           "the matrix row is selected by the pivot" if ok_m else "the matrix row does not depend on the pivot", fi, line)
 
 
 def jax_routine(ctx):
